@@ -97,4 +97,15 @@ def partitionSpec (m : MatrixMeta) (rowPartitions columnPartitions : List Nat) :
 def MatrixPart.cells (p : MatrixPart) : List Nat :=
   ((p.data.take p.rows).map fun slice => slice.take p.columns).flatten
 
+/-! ### views over a source that changes after construction -/
+
+/-- the reversal flags of the adaptors around the matrix, innermost first -/
+def Live.flags {α : Type} : Live α → List (Bool × Bool)
+  | .matrix _ => []
+  | .reverse s fr fc => s.flags ++ [(fr, fc)]
+
+/-- reversals with the given flags (innermost first) over a matrix of the given size -/
+def reversalsOver (rows columns : Nat) (flags : List (Bool × Bool)) : MExpr :=
+  flags.foldl (fun e f => .reverse e f.1 f.2) (.leaf rows columns)
+
 end EasyMl.MatrixView
